@@ -14,7 +14,8 @@
 (***************************************************************************)
 EXTENDS Naturals, Sequences, FiniteSets, TLC, Json
 
-CONSTANTS Inputs, Levels, MaxObjs, MaxEvents, Ctors
+CONSTANTS Inputs, Levels, MaxObjs, MaxEvents, Ctors,
+          OtherKinds      \* unrelated uses of the library in the same process
 
 VARIABLES objs, hist
 vars == <<objs, hist>>
@@ -70,10 +71,21 @@ NewBad(i, kind) ==
   /\ UNCHANGED objs
   /\ hist' = Append(hist, [op |-> "new_bad", obj |-> 0, inp |-> i, ctor |-> kind, from |-> 0, to |-> 0])
 
+(* Other use of the library in the same process between two resolver events: computing the mass of a plain      *)
+(* molecule graph, a sampler run, writing a molecule, reading unrelated strings.  It addresses no resolver object *)
+(* and must not influence any later result (C12: results depend on the input alone).  At most one per history,  *)
+(* directly in front of a resolver event, to keep the universe small.                                             *)
+NOthers == Cardinality({k \in DOMAIN hist : hist[k].op = "other"})
+Other(kind) ==
+  /\ NOthers = 0 /\ Len(hist) >= 1 /\ Len(hist) < MaxEvents - 1
+  /\ UNCHANGED objs
+  /\ hist' = Append(hist, [op |-> "other", obj |-> 0, inp |-> hist[1].inp, ctor |-> kind, from |-> 0, to |-> 0])
+
 Next == /\ Len(hist) < MaxEvents
         /\ \/ \E i \in Inputs, c \in Ctors : New(i, c)
            \/ \E i \in Inputs : NewStaged(i)
            \/ \E i \in Inputs, kind \in BadKinds : NewBad(i, kind)
+           \/ \E kind \in OtherKinds : Other(kind)
            \/ \E o \in DOMAIN objs : Resolve(o) \/ Iterate(o) \/ All(o) \/ Past(o)
 Spec == Init /\ [][Next]_vars
 
@@ -90,4 +102,6 @@ Emit == (Len(hist) = MaxEvents \/ Len(hist) > 0) => PrintT(<<"G", Len(hist), ToJ
 
 Lv == 1 :> 2 @@ 2 :> 1 @@ 3 :> 3 @@ 4 :> 1 @@ 5 :> 1
 CtorsAll == {"from_string", "from_graph", "from_fragment_dicts"}
+OthersQ == {"mass", "sample"}
+OthersAll == {"mass", "sample", "write", "read"}
 =============================================================================
